@@ -160,6 +160,7 @@ func checkC15() fw.Check {
 				for _, qe := range [][2]int{{0, 2}, {2, 0}, {1, 1}, {3, 2}, {0, 1}, {1, 0}} {
 					proto, qe := proto, qe
 					cases = append(cases, fw.Case{ID: fmt.Sprintf("C15/http/%s/q%d-e%d", proto, qe[0], qe[1]), Bubble: true, Run: func(c *fw.Ctx) { runC15HTTP(c, c.ID, proto, qe[0], qe[1]) }})
+					cases = append(cases, fw.Case{ID: fmt.Sprintf("C15/http-failing/%s/q%d-e%d", proto, qe[0], qe[1]), Bubble: true, Run: func(c *fw.Ctx) { runC15HTTPFail(c, c.ID, proto, qe[0], qe[1], true) }})
 				}
 			}
 			return cases
@@ -405,7 +406,11 @@ func roleKind(r string) string {
 	return r
 }
 
-func runC15HTTP(c *fw.Ctx, id, proto string, q, e2e int) {
+func runC15HTTP(c *fw.Ctx, id, proto string, q, e2e int) { runC15HTTPFail(c, id, proto, q, e2e, false) }
+
+// runC15HTTPFail: failOne poisons the capture handle of the second participant: over HTTP "returns an error and no
+// result" means a non-2xx status and no result document in the body.
+func runC15HTTPFail(c *fw.Ctx, id, proto string, q, e2e int, failOne bool) {
 	resetProcessState()
 	v := map[string]refmatch.Variant{"udp": refmatch.VariantByName("udp4"), "icmp": refmatch.VariantByName("icmp4")}[proto]
 	target := drive.TargetFor(v, 180+c.Worker)
@@ -418,6 +423,13 @@ func runC15HTTP(c *fw.Ctx, id, proto string, q, e2e int) {
 	}
 	defer env.close()
 	env.modelFor = func(k int, e *simEnv) *pathModel { return flowPath(k, e, 3, true, 300*time.Microsecond) }
+	if failOne {
+		env.onFlow = func(k int, e *simEnv) {
+			if k == 1 || q+e2e == 1 {
+				env.w.PoisonHandle(e.handle, fmt.Errorf("sendto: %w", errInjected))
+			}
+		}
+	}
 	qv := url.Values{"target": {target.String()}, "protocol": {proto}, "port": {"33434"}, "max-ttl": {fmt.Sprint(maxTTL)}, "timeout": {"60"},
 		"traceroute-queries": {fmt.Sprint(q)}, "e2e-queries": {fmt.Sprint(e2e)}}
 	rec := httptest.NewRecorder()
@@ -425,6 +437,17 @@ func runC15HTTP(c *fw.Ctx, id, proto string, q, e2e int) {
 	server.NewServer().TracerouteHandler(rec, httptest.NewRequest("GET", "/traceroute?"+qv.Encode(), nil))
 	allocMu.Unlock()
 	env.monitors(id)
+	if failOne {
+		c.Nontrivial(fmt.Sprintf("http-failing/%s/q%d-e%d", proto, q, e2e))
+		var probe result.Results
+		isDoc := json.Unmarshal(rec.Body.Bytes(), &probe) == nil && (len(probe.Traceroute.Runs) > 0 || len(probe.E2eProbe.RTTs) > 0)
+		if rec.Code >= 200 && rec.Code < 300 {
+			c.Violate("C15", "http-failure-masked", fmt.Sprintf("%s: one participant of the request failed but the handler answered %d (body: %.120s)", id, rec.Code, rec.Body.String()), nil)
+		} else if isDoc {
+			c.Violate("C15", "http-result-and-error", fmt.Sprintf("%s: status %d together with a result document", id, rec.Code), nil)
+		}
+		return
+	}
 	if rec.Code != 200 {
 		c.Violate("C15", "http-failed", fmt.Sprintf("%s: fault-free request failed with %d: %s", id, rec.Code, rec.Body.String()), nil)
 		return
